@@ -75,8 +75,16 @@ CHECKS = {
             "Seeded search over binding histories and heap layouts against a map model, queried inside and outside each domain after every step. Evidence, not proof.",
             "Trusted: the reference model and observer in /verif/model (expectations are built from operation inputs only), AddressSanitizer/UBSan, the simulated allocator. Sampling, not enumeration: a clean batch means no counterexample among the runs explored.",
             "4/C16"),
-    "C17": (False, "", "", "", "4/C17"),
-    "C18": (False, "", "", "", "4/C18"),
+    "C17": (True,
+            TECH + ": one construction program executed in two Lexicons interleaved by the scheduler, in different sub-arenas under different placement policies, with noise allocations and unrelated constructions in one of them; outputs on simulated streams compared byte for byte",
+            "Seeded search over programs of the printable fragment and over pairs of construction histories (addresses, policies, noise): texts must be byte-identical per option setting, a second print must reproduce the first, printing must leave the observable graph untouched, sentinel locations appear iff enabled. Evidence, not proof.",
+            "Trusted: the reference model and observer in /verif/model, the acyclicity discipline of the graph generator (DESIGN.md), AddressSanitizer/UBSan, the simulated allocator and stream buffer. Sampling, not enumeration.",
+            "4/C17"),
+    "C18": (True,
+            TECH + ": kind sweep (every node kind x every printer entry point, each in its own run, crash attributed through breadcrumbs) plus seeded graphs printed on simulated streams with odd initial state, failing after N bytes or throwing",
+            "Every kind the workload can build is offered to every entry point; seeded graphs with spellings over all byte values are printed on simulated streams; termination (process survival), stream state, decimal numbers, control bytes and printer indentation are checked; with a failing sink only termination and memory safety. Evidence, not proof.",
+            "Trusted: the reference model and observer in /verif/model, the acyclicity discipline of the graph generator (DESIGN.md), AddressSanitizer/UBSan, the simulated allocator and stream buffer. Sampling, not enumeration.",
+            "4/C18"),
     "C19": (False, "", "", "", "4/C19"),
     "C20": (False, "", "", "", "4/C20"),
 }
